@@ -36,7 +36,7 @@ var c09Tree = reg("C09", "c09-tree", checkC09)
 var c09Bad = reg("C09", "c09-malformed", checkC09Bad)
 
 func xmlCfg() xmodel.GenCfg {
-	return xmodel.GenCfg{MaxDepth: 4, MaxKids: 4, MaxTop: 2, XMLSafe: true, XMLEverywhere: true, Undeclare: true, Wide: true, AllowBig: thorough(),
+	return xmodel.GenCfg{MaxDepth: 4, MaxKids: 4, MaxTop: 2, XMLSafe: true, XMLEverywhere: true, Undeclare: true, Wide: true, AllowBig: thorough(), Stress: true,
 		Names:  []string{"a", "b", "c", "a-b", "a.b", "a1", "é", "_u", "child", "div"},
 		Values: []string{"1", "2", "abc", "x y", " lead", "trail ", "<&>", "a\"b", "a'b", "é€", "𝄞", "]]>", "&amp;", "\t", "line\nbreak", "10", "жук", "ÿþ", "naïve", "Türkçe", "αβγ", "łódź", "þð",
 			// characters whose ISO-8859-1 / windows-1252 bytes happen to form valid UTF-8 sequences
